@@ -151,6 +151,22 @@ func docxAlphabet() []docxKind {
 		docxHeading("hup", "heading-own-vs-base", "ChapterHead", 0, 1, true),   // own outlineLvl 0, based on Heading3
 		docxHeading("hchain", "heading-own-vs-base", "SubSection", 0, 3, true), // no marker -> SectionHead (3) -> Heading1 (1)
 		docxHeading("hloc", "heading-own-vs-base", "berschrift2", 0, 2, true),  // localized id, name "heading 2", outlineLvl 1, based on umbrella style named "Heading"
+		// named non-heading style, alone and combined with direct formatting; later blocks that reuse
+		// the style must be judged by their own properties only
+		{"pst", nil, func(g *gen, o docxOpt) ([]docxw.Block, []xBlock) {
+			a := g.tok()
+			return []docxw.Block{docxw.Para{Style: "BodyText", Content: []docxw.Inline{rn(docxw.T(a))}}}, []xBlock{{kind: kPara, atoms: atomsOf(a)}}
+		}},
+		docxHeading("host", "styled-direct-outline", "BodyText", 2, 2, false), // pStyle BodyText + direct outlineLvl 1
+		{"plp", nil, func(g *gen, o docxOpt) ([]docxw.Block, []xBlock) {
+			a := g.tok() // the list style of l0.. without numbering properties: a plain paragraph
+			return []docxw.Block{docxw.Para{Style: "ListParagraph", Content: []docxw.Inline{rn(docxw.T(a))}}}, []xBlock{{kind: kPara, atoms: atomsOf(a)}}
+		}},
+		{"lbt", []string{"styled-numpr"}, func(g *gen, o docxOpt) ([]docxw.Block, []xBlock) {
+			a := g.tok() // numPr on a paragraph that carries the named body style
+			p := docxw.Para{Style: "BodyText", NumID: 1, ILvl: 0, Content: []docxw.Inline{rn(docxw.T(a))}}
+			return []docxw.Block{p}, []xBlock{{kind: kItem, level: 0, list: 1, loose: !o.nums, feat: "styled-numpr", atoms: atomsOf(a)}}
+		}},
 		docxItem("l0", 1, 0),
 		docxItem("l1", 1, 1),
 		docxItem("l2", 1, 2),
@@ -160,6 +176,13 @@ func docxAlphabet() []docxKind {
 			c, ps := cellP(g, 1)
 			t := docxw.Table{Cols: 1, Rows: []docxw.Row{{Cells: []docxw.Cell{c}}}}
 			return []docxw.Block{t}, []xBlock{{kind: kTable, tbl: &xTable{1, 1, []xCell{{0, 0, 1, 1, ps}}}}}
+		}},
+		{"tst", nil, func(g *gen, o docxOpt) ([]docxw.Block, []xBlock) {
+			// table with a named table style and a header row
+			a, pa := cellP(g, 1)
+			b, pb := cellP(g, 1)
+			t := docxw.Table{Cols: 1, Style: "TableGrid", Rows: []docxw.Row{{Header: true, Cells: []docxw.Cell{a}}, {Cells: []docxw.Cell{b}}}}
+			return []docxw.Block{t}, []xBlock{{kind: kTable, tbl: &xTable{2, 1, []xCell{{0, 0, 1, 1, pa}, {1, 0, 1, 1, pb}}}}}
 		}},
 		{"t22", []string{"cell-multipara"}, func(g *gen, o docxOpt) ([]docxw.Block, []xBlock) {
 			var rows []docxw.Row
@@ -276,6 +299,8 @@ func docxStyles() []docxw.Style {
 		docxw.Style{ID: "ChapterHead", Name: "Chapter Head", BasedOn: "Heading3", Custom: true, Outline: 1},
 		docxw.Style{ID: "SubSection", Name: "Sub Section", BasedOn: "SectionHead", Custom: true},
 		// localized Word: ids are translated, names are the built-in primary names; umbrella base style
+		docxw.Style{ID: "BodyText", Name: "Body Text", BasedOn: "Normal"},
+		docxw.Style{ID: "TableGrid", Name: "Table Grid", Type: "table"},
 		docxw.Style{ID: "berschrift", Name: "Heading", BasedOn: "Normal"},
 		docxw.Style{ID: "berschrift2", Name: "heading 2", BasedOn: "berschrift", Outline: 2})
 }
